@@ -49,6 +49,10 @@ add("C10", "exploration",
     "Executable specifications written from the documentation (arithmetic/logic/conversion blocks, slicer, NRZI, LFSR descrambler incl. general mask/length, both correlators, Delay, Skip, Tee, RationalResampler out[k]=in[floor(k*D/I)] with count ceil(N*I/D), RtlSdrDecode within 1 ulp, VectorSource, VecToStream, StreamToPdu on well-formed bursts, BurstTagger, ToText) compared exactly with the block's output, both one-shot and drip-fed, on seeded and boundary inputs of 0..3 stream capacities.",
     "Specifications are the harness author's reading of the documentation; integer blocks are fed only representable results (the crate builds with overflow checks); StreamToPdu only with bursts that fit max_size.",
     "runtime monitoring: executable-specification oracle over generated inputs", "3/C10", "drip-feed")
+add("C11", "exploration",
+    "f64 reference implementations with derived rounding bounds (not tuned constants): FirFilter block (taps 1..200, decimation 1..8, random/impulse/step/sinusoid inputs, one-shot and drip-fed) = sliding dot product with kept decimation phase, exact output count; FftFilter and FftFilterFloat = linear convolution with zero pre-history and FFT out[n] = FIR out[n-(ntaps-1)]; Fir::filter_float for every length 0..70 (all remainders mod 8) in the scalar, AVX (+avx,+sse3) and std::simd builds, the AVX kernel additionally under AddressSanitizer and Miri (thorough); SinglePoleIirFilter, IirFilter (fill, clamped), FastFM bit-exact against their recurrences; Hilbert (real part = input delayed by (ntaps+1)/2 exactly, imaginary part = dot product with fir::hilbert taps, taps antisymmetric and zero at even offsets, envelope of an in-band tone); QuadratureDemod = gain*arg(s*conj(s_prev)) and tone -> 2*pi*f; low_pass/low_pass_complex symmetric with unit DC gain for every WindowType.",
+    "Bounds: dot products 2*n*u*sum|a_i*b_i|, FFT convolution 32*u*log2(N)*|x over this and the previous block|*|h| (u=2^-24). The evidence reports max observed error / bound per kernel. FFTW engine not built in this sandbox.",
+    "runtime monitoring: f64 reference oracle with derived error bounds across three kernel builds + ASan + Miri", "3/C11", "kernels")
 add("C12", "exploration",
     "Inputs carry uniquely keyed tags (0-5 per sample, clustered at likely split points); under drip-feed schedules the multiset (key, value, absolute output index) seen at the output must equal the expected mapping: identity for one-to-one blocks (first input only for multi-input blocks), both outputs of Tee, +delay for Delay, index/decimation for FirFilter, minus skip for Skip, identity for Hilbert/FftFilter/FftFilterFloat; added tags of VectorSource, CorrelateAccessCodeTag, BurstTagger, VecToStream on exactly the specified samples.",
     "Blocks documented as dropping tags (RationalResampler, RtlSdrDecode, AU codec, ...) are not judged. Tags on samples that never reach the output (FIR history tail) are expected to be absent.",
@@ -61,6 +65,8 @@ ENGINES = [
          kind_free_text="random/walker/boundary operation histories on one stream vs an executable queue model"),
     dict(name="drip-feed", path="harness/src/drip.rs, duts.rs, blockprops.rs", serves_properties=["C08", "C09", "C10", "C12"],
          kind_free_text="harness plays both neighbours of one block on small streams; per-call observation through hook events"),
+    dict(name="kernels", path="harness/src/kernels.rs", serves_properties=["C11"],
+         kind_free_text="f64 reference implementations and derived rounding bounds for the DSP kernels; scalar/AVX/simd/ASan/Miri builds"),
     dict(name="spsc-stress", path="harness/src/spsc.rs", serves_properties=["C03"],
          kind_free_text="two real threads on one small ring; log monitors in the release build, ThreadSanitizer build with the recorder off"),
     dict(name="eos-scripts", path="harness/src/eos.rs", serves_properties=["C04"],
